@@ -67,7 +67,7 @@ class BV:
         """Blocks that can execute when `target` is the successor taken at `switch_bi`:
         everything except blocks reachable only through the other successors."""
         others = [b for b in self.succ[switch_bi] if b != target]
-        mine = self.reach_from([target])
+        mine = self.reach_from([target], avoid=[switch_bi])
         theirs = self.reach_from(others, avoid=[switch_bi]) if others else set()
         return self.reach0 - (theirs - mine)
 
